@@ -664,7 +664,8 @@ def feedLoop (cfg : Cfg) (urlOk : Bool → Bytes → Bool) :
     | .stop o => { o with evs := evs ++ o.evs }
     | .cont st' data' evs' =>
       if data'.length < data.length then feedLoop cfg urlOk fuel st' data' (evs ++ evs')
-      else { st := { st' with tail := data' }, evs := evs ++ evs', rest := [], err := none }
+      -- (never taken: every continuing iteration consumes input; kept so that the loop is total)
+      else { st := { st' with failed := true }, evs := evs ++ evs', rest := [], err := some .badHttpMessage }
 
 /-- `HttpParser.feed_data(data)` -/
 def feed (cfg : Cfg) (urlOk : Bool → Bytes → Bool) (st : St) (data : Bytes) : FeedOut :=
